@@ -937,7 +937,8 @@ func (p *queryPlan) projectAndGroupBy() error {
 		// Update sorting configuration.
 		found := false
 		for _, g := range p.stm.GroupByBindings() {
-			if prj.Binding == g {
+			// GROUP BY refers to the projected name: the alias when there is one.
+			if (prj.Alias == "" && prj.Binding == g) || (prj.Alias != "" && prj.Alias == g) {
 				found = true
 			}
 		}
